@@ -14,4 +14,12 @@ for p in debian-control debian-copyright dep3 apt-sources; do
     mv $out/$p.rs.tmp $out/$p.rs
   fi
 done
+# the verification-only crate whose struct covers every field shape the macros distinguish (tools/shapes), expanded by the same
+# macros of the tree under test (its dependency is /repo)
+cd /verif/tools/shapes || exit 3
+if ! CARGO_TARGET_DIR=/verif/build/expand-target CARGO_NET_OFFLINE=true cargo +nightly rustc --offline --lib -- -Zunpretty=expanded > $out/vshapes.rs.tmp 2> $out/vshapes.err; then
+  echo "expand.sh: tools/shapes does not compile against the tree under test (see $out/vshapes.err)" >&2; rc=3
+else
+  mv $out/vshapes.rs.tmp $out/vshapes.rs
+fi
 exit $rc
